@@ -154,6 +154,8 @@ thread_local! {
     static SCOPES: std::cell::RefCell<std::collections::HashMap<(usize, usize), usize>> = std::cell::RefCell::new(Default::default());
     /// set by the initialiser of a thread-local value
     static TLS_INIT: std::cell::Cell<bool> = const { std::cell::Cell::new(false) };
+    /// thread-local values created and not yet dropped
+    static TLS_LIVE: std::cell::Cell<i64> = const { std::cell::Cell::new(0) };
 }
 
 impl TlsVal {
@@ -165,12 +167,14 @@ impl TlsVal {
         });
         let init = ctx.as_ref().expect("vharness: no objects").0.key_init(slot);
         TLS_INIT.with(|f| f.set(true));
+        TLS_LIVE.with(|f| f.set(f.get() + 1));
         TlsVal { slot, val: std::cell::Cell::new(init), ctx }
     }
 }
 
 impl Drop for TlsVal {
     fn drop(&mut self) {
+        TLS_LIVE.with(|f| f.set(f.get() - 1));
         // values of tasks that never finished are dropped by the clean-up of the execution: nothing to log there
         let live = shuttle_engine::runtime::execution::ExecutionState::try_with(|s| !s.is_finished()).unwrap_or(false);
         if !live {
@@ -267,9 +271,27 @@ enum Obj {
     Condvar(shuttle::sync::Condvar),
     Chan(ChanObj),
     Barrier(shuttle::sync::Barrier),
-    Once(shuttle::sync::Once),
+    Once(OnceRef),
     Placeholder,
 }
+
+/// A Once owned by the execution's objects, or one of the harness's `static` Onces (whose state must nevertheless be
+/// per execution)
+enum OnceRef {
+    Own(shuttle::sync::Once),
+    Static(&'static shuttle::sync::Once),
+}
+impl std::ops::Deref for OnceRef {
+    type Target = shuttle::sync::Once;
+    fn deref(&self) -> &shuttle::sync::Once {
+        match self {
+            OnceRef::Own(o) => o,
+            OnceRef::Static(o) => o,
+        }
+    }
+}
+static SONCE0: shuttle::sync::Once = shuttle::sync::Once::new();
+static SONCE1: shuttle::sync::Once = shuttle::sync::Once::new();
 
 enum Guard<'a> {
     M(usize, shuttle::sync::MutexGuard<'a, ()>),
@@ -406,9 +428,14 @@ fn parse_op(w: &str) -> Op {
 }
 
 fn make_objs(specs: &[String]) -> Vec<Obj> {
+    let mut nstatic = 0usize;
     specs
         .iter()
         .map(|w| match w.as_bytes()[0] {
+            b'O' => {
+                nstatic += 1;
+                Obj::Once(OnceRef::Static(if nstatic == 1 { &SONCE0 } else { &SONCE1 }))
+            }
             b'a' => Obj::Atomic(AtomicU64::new(w[1..].parse::<u64>().unwrap())),
             b'm' => Obj::Mutex(shuttle::sync::Mutex::new(())),
             b'w' => Obj::RwLock(shuttle::sync::RwLock::new(())),
@@ -428,7 +455,7 @@ fn make_objs(specs: &[String]) -> Vec<Obj> {
             }
             b'e' | b'k' | b'z' => Obj::Placeholder,
             b'b' => Obj::Barrier(shuttle::sync::Barrier::new(w[1..].parse().unwrap())),
-            b'o' => Obj::Once(shuttle::sync::Once::new()),
+            b'o' => Obj::Once(OnceRef::Own(shuttle::sync::Once::new())),
             b's' => {
                 let parts: Vec<&str> = w[1..].split(':').collect();
                 let fair = if parts[1] == "f" { Fairness::StrictlyFair } else { Fairness::Unfair };
@@ -1067,6 +1094,8 @@ thread_local! {
 
 fn snapshot_iteration() {
     let sch = CurrentSchedule::get_schedule();
+    // values of the finished execution that are still alive when the next one is about to start
+    log(format!("LIVE={}", TLS_LIVE.with(|f| f.get())));
     let log = LOG.with(|l| {
         let s = l.borrow().join(" ");
         l.borrow_mut().clear();
@@ -1396,6 +1425,72 @@ pub fn run_replaytext(words: &[&str]) -> String {
     }
 }
 
+/// A scheduler wrapper that abandons some executions: in iteration i (0-based) with i % 3 == 1 it answers None to the
+/// decision number (seed + i) % 11 (if the execution gets that far).
+struct Stopper<S> {
+    inner: S,
+    seed: u64,
+    iter: u64,
+    decisions: u64,
+    enabled: bool,
+}
+impl<S: Scheduler> Scheduler for Stopper<S> {
+    fn new_execution(&mut self) -> Option<Schedule> {
+        let r = self.inner.new_execution();
+        if r.is_some() {
+            self.iter += 1;
+            self.decisions = 0;
+        }
+        r
+    }
+    fn next_task(&mut self, runnable: &[&Task], current: Option<TaskId>, is_yielding: bool) -> Option<TaskId> {
+        let i = self.iter - 1;
+        if self.enabled && i % 3 == 1 && self.decisions == (self.seed + i) % 11 {
+            return None;
+        }
+        self.decisions += 1;
+        self.inner.next_task(runnable, current, is_yielding)
+    }
+    fn next_u64(&mut self) -> u64 {
+        self.inner.next_u64()
+    }
+}
+
+/// iters <kind> <seed> <param> <iters> <stop 0|1> <ms> <objs> <bodies>: one run of several executions under a built-in
+/// scheduler (optionally abandoning some of them); prints, per execution, its log and its recorded schedule.
+pub fn run_iters(words: &[&str]) -> String {
+    let [_, kind, seed, param, iters, stop, ms, objs, bodies] = words else {
+        return "ERR bad case".to_string();
+    };
+    let Some(config) = parse_config(ms) else { return "ERR bad max_steps".to_string() };
+    let seed: u64 = seed.parse().unwrap();
+    let param: usize = param.parse().unwrap();
+    let iters: usize = iters.parse().unwrap();
+    let enabled = *stop == "1";
+    let prog = parse_prog(objs, bodies);
+    macro_rules! go {
+        ($s:expr) => {
+            run_recorded(Stopper { inner: $s, seed, iter: 0, decisions: 0, enabled }, config, prog)
+        };
+    }
+    let (data, fail) = match *kind {
+        "random" => go!(shuttle_schedulers::RandomScheduler::new_from_seed(seed, iters)),
+        "pct" => go!(shuttle_schedulers::PctScheduler::new_from_seed(seed, param.max(1), iters)),
+        "dfs" => go!(shuttle_schedulers::DfsScheduler::new(Some(iters), true)),
+        "rr" => go!(shuttle_schedulers::RoundRobinScheduler::new(iters)),
+        "urw" => go!(shuttle_schedulers::UrwRandomScheduler::new_from_seed(seed, iters)),
+        _ => return "ERR bad scheduler".to_string(),
+    };
+    let mut out = format!("K={} F={}", data.len(), fail.unwrap_or("-".into()));
+    for (log, sch) in data.iter() {
+        out.push_str(" | ");
+        out.push_str(log);
+        out.push_str(" S=");
+        out.push_str(&show_schedule(sch));
+    }
+    out
+}
+
 /// timelimit <kind> <seed> <iters> <limit_ms> <sleep_ms>: a run with `max_time` set whose body takes `sleep_ms` of real
 /// time.  Prints the returned count, the number of body invocations and, for every invocation, the elapsed
 /// milliseconds (since just before `Runner::run`) at its start and end, then the elapsed time at return.
@@ -1438,6 +1533,9 @@ pub fn run_timelimit(words: &[&str]) -> String {
 }
 
 pub fn run(words: &[&str]) -> String {
+    if words.first() == Some(&"iters") {
+        return run_iters(words);
+    }
     if words.first() == Some(&"timelimit") {
         return run_timelimit(words);
     }
